@@ -91,7 +91,7 @@ def gen_case(rnd, prop, tier):
     if rnd.random() < 0.4:
         inplace = dict(seed=rnd.getrandbits(32), mode=rnd.choice(['iadd', 'assign']))
     return dict(engine='A', attrs=attrs, sizes=sizes, cliques=cliques, kind=kind, pots=pots, scale=scale, total=total,
-                elims=elims, scheds=scheds, shift=shift, fold=rnd.choice(['harness', 'combine']), layout=rnd.choice(['C', 'C', 'C', 'F']), fresh_names=rnd.random() < 0.3, inplace=inplace,
+                elims=elims, scheds=scheds, shift=shift, fold=rnd.choice(['harness', 'combine']), layout=rnd.choice(['C', 'C', 'C', 'F']), key_order=rnd.choice([None, None, 'reversed', 'sorted']), fresh_names=rnd.random() < 0.3, inplace=inplace,
                 interleave=rnd.choice([None, None, 'project', 'datavector']))
 
 
@@ -153,6 +153,11 @@ def fold(mbi, case, model, shift=None):
             a = np.transpose(arr, order) if len(cl) > 1 else arr
             shape = [dom.config[x] if x in cl else 1 for x in tgt]
             pots[tgt] = mbi.Factor(pots[tgt].domain, pots[tgt].values + a.reshape(shape))     # item assignment after construction
+    if case.get('key_order') in ('reversed', 'sorted'):
+        # the same parameter vector with its cliques inserted in another order than model.cliques (a CliqueVector is a dict: key order is
+        # an accident of how the caller built it)
+        ks = list(reversed(model.cliques)) if case['key_order'] == 'reversed' else sorted(model.cliques)
+        pots = mbi.CliqueVector({m: pots[m] for m in ks})
     if case.get('layout') == 'F':
         # same tables, column-major memory: what Factor.transpose / project views and F-ordered caller arrays look like
         for m in model.cliques:
